@@ -169,6 +169,8 @@ module N :
 
   val div_eucl : n -> n -> n * n
 
+  val div : n -> n -> n
+
   val modulo : n -> n -> n
 
   val to_nat : n -> nat
@@ -1167,6 +1169,131 @@ val trim_end_cr : bytes -> bytes
 val ws_prefix_len : bytes -> nat
 
 val fmt_of_ws : bytes -> bool -> fmt
+
+val scalar_ok : n -> bool
+
+type text = n list
+
+val ocons : n -> n list option -> n list option
+
+val utf8_encode_char : n -> bytes
+
+val utf8_encode : text -> bytes
+
+val utf8_decode : bytes -> text option
+
+val utf16_units_char : n -> n list
+
+val utf16_units : text -> n list
+
+val u16_le : n -> bytes
+
+val u16_be : n -> bytes
+
+val encode_utf16 : (n -> bytes) -> text -> bytes
+
+val encode_utf16le : text -> bytes
+
+val encode_utf16be : text -> bytes
+
+val units_of_bytes : bool -> bytes -> n list option
+
+val is_high : n -> bool
+
+val is_low : n -> bool
+
+val utf16_scalars : n list -> text option
+
+val utf16_decode : bool -> bytes -> text option
+
+val utf16le_decode : bytes -> text option
+
+val utf16be_decode : bytes -> text option
+
+type enc =
+| Utf8
+| Utf16le
+| Utf16be
+| Legacy of nat
+
+val bom_utf8 : bytes
+
+val bom_utf16le : bytes
+
+val bom_utf16be : bytes
+
+val for_bom : bytes -> (enc * nat) option
+
+val bom_bytes : bytes option -> bytes
+
+val decode_with : (nat -> bytes -> text option) -> enc -> bytes -> text option
+
+val select_encoding : enc -> bytes -> (enc * bytes option) * bytes
+
+val decode_file :
+  (nat -> bytes -> text option) -> enc -> bytes -> ((bytes
+  option * enc) * text) option
+
+val encode_with : (nat -> text -> bytes option) -> enc -> text -> bytes option
+
+val write_bytes :
+  (nat -> text -> bytes option) -> enc -> bytes option -> text -> bytes option
+
+type file = { f_content : bytes; f_pos : nat; f_writable : bool }
+
+val zeros : nat -> bytes
+
+val read_to_end : file -> bytes -> bytes * file
+
+val seek0 : file -> file
+
+val overwrite : nat -> bytes -> bytes -> bytes
+
+val write_all : bytes -> file -> file option
+
+val set_len : nat -> file -> file option
+
+val stdout_write_all : bytes -> bytes -> bytes option
+
+val write_to :
+  (nat -> text -> bytes option) -> (bytes -> 'a1 -> 'a1 option) -> 'a1 -> enc
+  -> bytes option -> text -> 'a1 * nat option
+
+type result_op =
+  file -> ((bytes option * enc) * text) -> text -> (file * bytes) * bool
+
+val exec_one :
+  (nat -> bytes -> text option) -> (text -> text) -> bool -> result_op ->
+  bytes -> enc -> bytes -> (bytes * bytes) * bool
+
+val op_format_files : (nat -> text -> bytes option) -> result_op
+
+val op_files_to_stdout : bytes -> result_op
+
+val op_check : result_op
+
+val files_mode_from :
+  (nat -> bytes -> text option) -> (nat -> text -> bytes option) -> (text ->
+  text) -> bytes -> enc -> bytes -> (bytes * bytes) * bool
+
+val files_mode :
+  (nat -> bytes -> text option) -> (nat -> text -> bytes option) -> (text ->
+  text) -> enc -> bytes -> (bytes * bytes) * bool
+
+val files_to_stdout_mode :
+  (nat -> bytes -> text option) -> (text -> text) -> bytes -> enc -> bytes ->
+  (bytes * bytes) * bool
+
+val check_files_mode :
+  (nat -> bytes -> text option) -> (text -> text) -> enc -> bytes ->
+  (bytes * bytes) * bool
+
+val stdin_mode :
+  (nat -> bytes -> text option) -> (nat -> text -> bytes option) -> (text ->
+  text) -> bool -> enc -> bytes -> bytes * bool
+
+val check_stdin_mode :
+  (nat -> bytes -> text option) -> (text -> text) -> enc -> bytes -> bool
 
 module MLStringJoin :
  sig
